@@ -134,7 +134,14 @@ pub fn run_fe_case(ctx: &mut Ctx, c: &FeCase) -> Result<(), String> {
         let fds = fresh_fds(*nfds, FdKind::Memfd);
         reply_fd_ids = ids_of(&fds);
         let raw: Vec<RawFd> = fds.iter().map(|x| x.as_raw_fd()).collect();
-        rawpeer::send_all(peer.as_raw_fd(), bytes, &raw).map_err(|e| e.to_string())?;
+        // a conforming peer may write the reply in pieces (libvhost-user writes header and payload separately);
+        // descriptors ride on the first byte
+        let k = if c.rv.split == 0 || bytes.len() < 2 { bytes.len() } else { 1 + ((c.rv.split as usize * (bytes.len() - 1)) >> 16) };
+        rawpeer::send_all(peer.as_raw_fd(), &bytes[..k], &raw).map_err(|e| e.to_string())?;
+        if k < bytes.len() {
+            rawpeer::send_all(peer.as_raw_fd(), &bytes[k..], &[]).map_err(|e| e.to_string())?;
+            ctx.class(if *nfds > 0 { "fe_reply_in_two_pieces_with_descriptor" } else { "fe_reply_in_two_pieces" });
+        }
     } else if c.op.awaits_ack(&st) {
         rawpeer::send_all(peer.as_raw_fd(), &spec::reply(c.op.code(), &spec::b_u64(0)), &[]).map_err(|e| e.to_string())?;
     }
